@@ -88,6 +88,7 @@ type Exec struct {
 	clauseFn     *ssa.Function // function whose contract clauses are being instantiated (free variables by name)
 	curBlock     *ssa.BasicBlock
 	rootFresh    map[string]bool
+	rootArgW     map[string]string // component key -> reference of the only pre-existing object the root function may write it in (writesarg)
 	loopFresh    map[*loopInfo]map[string]bool
 	bvArith      bool
 	natDone      map[string]bool
@@ -99,7 +100,7 @@ func newExec(P *Program, bv bool) *Exec {
 		oblCount: map[string]int{}, logicals: map[string]*Val{}, tags: map[string]int{}, globalRefs: map[*ssa.Global]int{},
 		usedContract: map[string]bool{}, usedModels: map[string]bool{}, inlined: map[string]bool{},
 		genTop: map[int]string{}, genMerges: map[int]genMerge{}, keyInfo: map[string]compInfo{}, effCache: map[*ssa.Function]*WriteSet{}, effBusy: map[*ssa.Function]bool{},
-		natDone: map[string]bool{}, natTerms: map[int][][2]string{}, loopStatic: map[*loopInfo]map[string]bool{}, kfExcept: map[string]string{}, rootFresh: map[string]bool{}, loopFresh: map[*loopInfo]map[string]bool{}}
+		natDone: map[string]bool{}, natTerms: map[int][][2]string{}, loopStatic: map[*loopInfo]map[string]bool{}, kfExcept: map[string]string{}, rootFresh: map[string]bool{}, rootArgW: map[string]string{}, loopFresh: map[*loopInfo]map[string]bool{}}
 	return x
 }
 
